@@ -75,7 +75,7 @@ var _ = fmt.Sprintf
 func deepE1(c *core.Check, needPred bool, handle func(core.State)) {
 	perWorker, depth, maxD := 100, 10, "5"
 	if c.Tier == "thorough" {
-		perWorker, depth, maxD = 6000, 14, "7"
+		perWorker, depth, maxD = 1500, 12, "6"
 	}
 	consts := map[string]string{"MaxD": maxD, "Level2": "\"all\"", "NParts": "1", "Part": "0", "NeedPred": "TRUE"}
 	cfg := "MC_E1Deep.cfg"
